@@ -21,7 +21,7 @@ import (
 func init() {
 	fw.Register(&fw.Prop{
 		ID: "C14", Level: "exploration",
-		Rule: "one case = one generated schema program (a top validator over 0-4 constraints from every s: constructor, nested validators up to depth 2, built with s:deftype / s:make-validator / make-validator-with-typedef) in a fresh runtime, validated against 10 values aimed at its constants (numbers around every comparison constant incl. beyond 2^53, lengths around every length constant, strings sampled from/near every pattern, maps with/without every named key; for every s:in enum - whose members are numbers, strings, symbols, bytes, nil, lists, arrays, maps and tagged values - its members and their kin: values of another kind with the same spelling, number, members or emptiness) plus, for every map-bearing value, its all-string-key, all-symbol-key, JSON round-trip and rebuilt-in-lisp twins; every 5th case applies one malformation and demands rejection at construction.  A distinct non-trivial case = top type x how built x set of constraint constructors used x value class (kind, emptiness, origin) x observed outcome (well-formed), or malformed piece x slot x build outcome (malformed)",
+		Rule: "one case = one generated schema program (a top validator over 0-4 constraints from every s: constructor, nested validators up to depth 2, built with s:deftype / s:make-validator / make-validator-with-typedef) in a fresh runtime, validated against 10 values aimed at its constants (numbers around every comparison constant incl. beyond 2^53, lengths around every length constant, strings sampled from/near every pattern, maps with/without every named key; for every s:in enum - whose members are numbers, strings, symbols, bytes, nil, lists, arrays, maps and tagged values - its members and their kin: values of another kind with the same spelling, number, members or emptiness) plus, for every map-bearing value, its all-string-key, all-symbol-key, JSON round-trip and rebuilt-in-lisp twins; every 5th case applies one malformation and demands rejection at construction; every 10th case appends one case around ONE LARGE declaration (families in rotation: an s:in of 5-72 allowed values [300 thorough], a record of 5-36 declared keys, 4-36 alternative types in s:of / s:has-key, lengths and arrays of 7-72, 5-18 constraints all satisfied by one witness value; sizes drawn half of the time at a power of two or round number +-1; placed directly, under s:not, behind s:has-key / s:may-have-key / s:of / s:when) with values aimed at every position of it, judged like every other case.  A distinct non-trivial case = top type x how built x set of constraint constructors used x value class (kind, emptiness, origin) x observed outcome (well-formed), or malformed piece x slot x build outcome (malformed)",
 		Assumptions: []string{
 			"the oracle is the documented meaning (libschema README + builtin docstrings) as encoded in harness/c14x; cases the documentation does not decide (listed in NOTES-C14.md) are not judged",
 			"the elps reader, sorted-map, vector, to-bytes, new/deftype, get/aref/user-data and json:dump-string/json:load-string build the value the harness wrote; this is re-checked per value by reading the built value back through the Go API and comparing it with the model value (echo check)",
@@ -34,7 +34,8 @@ func init() {
 			}
 			return 20_000
 		},
-		Run: c14Run,
+		Run:    c14Run,
+		Driver: c14SizedDriver,
 		MinDistinct: func(tier string) int {
 			if tier == "thorough" {
 				return 150_000
@@ -54,6 +55,8 @@ type c14Ctx struct {
 	idx int
 	log []string // program so far, for violation details
 	eq  map[string]int
+	// the large-declaration family (c14_sized.go): what the case built
+	sized *c14x.SizedInfo
 }
 
 // eqRef is the c14x.EqualRef of this case: (equal? v a) in the runtime under
@@ -415,14 +418,21 @@ func (c *c14Ctx) attrCons(k *c14x.Cons, v *c14x.Value, expr string) *c14Culprit 
 		}
 	case "in":
 		// which allowed value is mis-compared?  Each member alone, as its own enum.
+		single := false
 		for _, a := range k.Vals {
 			one := &c14x.Cons{Op: "in", Vals: []*c14x.Value{a}, EqRef: k.EqRef}
 			osrc := c14Iso("s:any " + one.Src())
 			if odir, ogot := c.mism(osrc, c14x.EvalCons(one, v), expr); odir != "" {
 				cu.src, cu.dir, cu.got, cu.want = osrc, odir, ogot, c14x.EvalCons(one, v)
 				cu.cls = c14x.KinOf(v, a)
+				single = true
 				break
 			}
+		}
+		if !single && len(k.Vals) > 1 {
+			// every allowed value on its own compares as documented; the
+			// enumeration as a whole does not
+			c.attrWholeEnum(k, v, expr, cu)
 		}
 	}
 	switch k.Op {
@@ -521,6 +531,11 @@ func c14Run(w *fw.W, idx int) {
 		return
 	}
 	c.wellFormedCase()
+	if idx%10 == 2 {
+		// appended, with a random stream of its own: one LARGE declaration
+		w.Count("c14_sized_due", 1)
+		c14SizedCase(w, idx)
+	}
 }
 
 // violate records a violation.  The framework keeps at most 200 violations
@@ -588,8 +603,18 @@ func (c *c14Ctx) wellFormedCase() {
 	if !c.define(c.g.Defs) {
 		return
 	}
+	c.judge(top, "")
+	if c.idx%3 == 1 {
+		// the validator as the base type of another one, constraints declared on top
+		c.derivedCase(top)
+	}
+}
+
+// judge validates values aimed at top (and their twins) and compares every
+// outcome with the documented meaning.
+func (c *c14Ctx) judge(top *c14x.Schema, coverPrefix string) {
 	ops := c14OpsOf(top)
-	cover := "type=" + top.Type + "/" + top.Sub + "|via=" + c14Vias[top.Via] + "|ops=" + ops
+	cover := coverPrefix + "type=" + top.Type + "/" + top.Sub + "|via=" + c14Vias[top.Via] + "|ops=" + ops
 
 	nvals := 10
 	for i := 0; i < nvals; i++ {
@@ -639,6 +664,9 @@ func (c *c14Ctx) wellFormedCase() {
 			model := c14x.EvalSchema(top, x.v)
 			c.w.CoverKey(cover + "|v=" + x.v.Class() + "/" + x.kind + "|out=" + real)
 			c.w.SetAdd("outcomes", real)
+			if c.sized != nil {
+				c.sizedObserve(x.v, x.kind, model, real)
+			}
 			if !model.Judged() {
 				c.w.Count("not_judged_by_documentation", 1)
 			}
@@ -676,10 +704,6 @@ func (c *c14Ctx) wellFormedCase() {
 		// twins must agree with each other, whatever the documentation says about the verdict
 		c.twin(outcomes, "strkeys", "symkeys", "symbol-keyed-map-validates-differently-from-string-keyed", top, base)
 		c.twin(outcomes, "json", "json-rebuilt", "json-decoded-map-validates-differently-from-lisp-built", top, base)
-	}
-	if c.idx%3 == 1 {
-		// the validator as the base type of another one, constraints declared on top
-		c.derivedCase(top)
 	}
 }
 
